@@ -12,10 +12,11 @@ transparency stream) compares the worker-to-worker connections with the path clo
 Ops (JSON lists): ['mkworker', stateful, szin, szout] ['mkfuture', szin, szout] ['fork', n]
   ['sub', s, j, p, i]  = s[j].subscribe(p[i])      ['train', n, tp, ti, lp, li] = n.train(tp[ti], lp[li])
   ['segment', h, t|None] = flow.Segment(h, t)      ['validate', h, t|None] = Segment(h, t).accept(Validator())
-  oracle-only (not modelled): ['copy', h, t|None] = Segment(h, t).copy()
+  oracle-only (not modelled): ['copy', h, t|None] = Segment(h, t).copy()   ['extend', h, t|None, r] = Segment(h, t).extend(r)
 """
 from __future__ import annotations
 
+import collections
 import itertools
 import multiprocessing
 import os
@@ -27,6 +28,7 @@ from core import framework as fw
 from core import sexp
 
 MAXN = 6
+KNOWN_SIGS: set = set()  # signatures of the listed findings (set by the check before any worker is forked)
 T, L = 0, 1  # port codes: Train 0, Label 1, Apply(i) i+2
 
 MESSAGES = [
@@ -205,9 +207,13 @@ def invariants(dump) -> list[tuple[str, str]]:
     for n, i, s, c in edges:
         if n in workers:
             pubs.setdefault((s, c), set()).add((n, i))
+    shared = collections.Counter((r[0], r[1]) for r in dump[1])
     for (s, c), ps in pubs.items():
         if len(ps) > 1:
-            bad.append(('I1-two-publishers', f'input port {c} of node {s} has {len(ps)} publishers {sorted(ps)}'))
+            # root cause D12: one placeholder input port with several registered publishers (each of them is
+            # connected to every subscriber of that port); anything else is a different defect
+            sig = 'I1-two-publishers-shared-future-port' if any(v > 1 for v in shared.values()) else 'I1-two-publishers'
+            bad.append((sig, f'input port {c} of node {s} has {len(ps)} publishers {sorted(ps)}'))
             break
     # I2 no node feeds itself
     for n, i, s, c in edges:
@@ -270,13 +276,16 @@ def reachable(dump, head) -> set:
 def judge(op, res, cls, before, after) -> list[tuple[str, str]]:
     """All oracle clauses for one call. `before`/`after` are dumps; returns [(signature, what)]."""
     out = []
-    route = 'copy' if op[0] == 'copy' else 'future' if _touches_future(op, before) else 'direct'
+    route = op[0] if op[0] in ('copy', 'extend') else 'future' if _touches_future(op, before) else 'direct'
     if res[0] == 'err' and op[0] == 'copy':
         return out  # a failing copy leaves forks behind in the worker groups; only successful copies are judged
     if res[0] == 'err':
         if cls not in ('TopologyError', 'ValueError', 'AssertionError'):  # AssertionError: port index out of shape
             out.append((f'error-class-{cls}', f'{op} raised {cls} instead of the topology error'))
-        if before != after:
+        # Segment.extend = subscribe, then trace: when the tracing refuses the result (cycle, ambiguous or
+        # non-simple tail) the subscription that did not break any invariant legitimately stays
+        traced = op[0] == 'extend' and res[1] in ('cyclic', 'ambiguous', 'disconnected', 'simple-head', 'simple-tail')
+        if before != after and not traced:
             stage = ''
             if op[0] == 'train' and route == 'direct':
                 stage = '-label-stage'
@@ -293,7 +302,11 @@ def judge(op, res, cls, before, after) -> list[tuple[str, str]]:
             if t is None and res[1] not in reachable(after, h):
                 out.append(('tail-not-reachable', f'{op} returned tail {res[1]} not reachable from {h}'))
             if op[0] == 'validate' and not _is_worker(after, h) and res[1] != h:
-                out.append(('placeholder-accepted', f'{op} accepted a segment headed by a Future'))
+                # (a Future that is head and tail at once is ignored by design: 'Potential tail Future node is ignored')
+                tl = res[1]
+                aliased = len(after[0][h]) == len(after[0][tl]) > 0 and after[0][h] == after[0][tl]
+                sig = 'placeholder-accepted-head-aliases-tail' if aliased else 'placeholder-accepted'
+                out.append((sig, f'{op} accepted a segment headed by a Future'))
     return out
 
 
@@ -368,8 +381,10 @@ def gen_op(rng: random.Random, real: Real, dump, last_failed, extra_ops: bool, a
                     todo.append(y)
         return False
 
-    if extra_ops and r < 0.12:
+    if extra_ops and r < 0.10:
         return ['copy', rng.randrange(n), None if rng.random() < 0.7 else rng.randrange(n)]
+    if extra_ops and r < 0.22:
+        return ['extend', rng.randrange(n), None if rng.random() < 0.7 else rng.randrange(n), rng.randrange(n)]
     if r < 0.14:
         h = rng.randrange(n)
         t = None if rng.random() < 0.6 else rng.randrange(n)
@@ -433,9 +448,12 @@ def run_sequence(ops_or_seed, length: int = 0, extra_ops: bool = False, allow_re
             after = real.dump()
             ops.append(op)
             records.append([res] + after)
-            if not verdicts:  # the first failing call is the witness; what follows is a consequence of it
+            # the first failing call is the witness, what follows may be a consequence of it; listed findings do
+            # not stop the judging (a later, different failure of the same sequence must still be reported)
+            if all(v[1] in KNOWN_SIGS for v in verdicts):
                 for sig, what in judge(op, res, cls, before, after):
-                    verdicts.append((i, sig, what))
+                    if not any(v[1] == sig for v in verdicts):
+                        verdicts.append((i, sig, what))
             last_failed = op if res[0] == 'err' else None
             before = after
         return ops, records, verdicts
@@ -503,24 +521,37 @@ class C11(fw.Check):
     ID = 'C11'
     LEAN_MODULES = ['ForML.Props.C11']
     DRIVER = 'drv_c11'
-    RULE = ('op sequences over a universe of <= 6 nodes (workers 1:1/2:1/1:2/2:2 stateful or not, forks, futures 1:1/2:2): '
-            'create/fork, s[j].subscribe(p[i]), n.train(a[i], b[k]), Segment(h[,t]), Segment.accept(Validator); generated '
-            'online against the real graph: 70 % of the calls are aimed at legal ones, 30 % uniformly random (mostly '
-            'illegal), failed calls are retried with probability 1/4; hand-written corpus first; thorough adds every '
-            'sequence of <= 4 state-changing calls from a 20-call alphabet on a fixed 4-node universe (final state + all '
-            'results compared). Transparency stream: random legal wirings through 1..3 futures executed in several '
-            '(thorough: up to all) orders. Every call of every sequence is one evaluation; a sequence is distinct by its '
-            'op list and non-trivial when at least one call failed and one edge exists at the end.')
+    RULE = ('op sequences over a universe of <= 6 nodes (workers 1:1/2:1/1:2/2:2/0:1/1:0 stateful or not, forks, futures '
+            '1:1/2:2): create/fork, s[j].subscribe(p[i]), n.train(a[i], b[k]), Segment(h[,t]), Segment.accept(Validator); '
+            'generated online against the real graph: 70 % of the calls are aimed at legal ones, 30 % uniformly random '
+            '(mostly illegal), failed calls are retried with probability 1/4; hand-written corpus and the witnesses of '
+            'findings.d first; thorough adds every sequence of <= 4 state-changing calls from a 19-call alphabet on a fixed '
+            '4-node universe (all results + final state compared). Transparency stream: random legal wirings through 1..3 '
+            'futures executed in several (thorough: up to all) orders, worker-to-worker connections compared with the path '
+            'closure of the requested wiring. Oracle-only stream (not modelled): Segment.copy, Segment.extend, cycles of '
+            'placeholders. Every call of every sequence is one evaluation; a sequence is distinct by its op list and '
+            'non-trivial when it contains at least three kinds of calls.')
     TRUSTED = [
         'Python object identity and uuid4 are modelled by list indices; Subscription.__del__ / GC driven clean-up of '
-        '_PORTS is not modelled (all nodes are kept alive during a sequence)',
-        'Node.__eq__/__hash__ Future/Worker aliasing inside sets of Traversal is modelled as identity',
+        '_PORTS is not modelled (all nodes are kept alive during a sequence, _PORTS is cleared/restored around it)',
+        'Node.__eq__/__hash__ Future/Worker aliasing inside sets of Traversal is modelled as the code computes it '
+        '(eqNode/memNode)',
         'the Publisher-collision check of Future.register (same proxy object registered twice) is not reachable '
         'through node[i] (a fresh proxy per call) and is not modelled',
+        'Future._collapse re-publishes every (registered publisher, held subscription) pair; the model forwards the '
+        'new subscription only (re-publishing an already published pair is a no-op in every reachable state)',
+        'the model follows the code with fixes/C11-atomic-topology-errors.diff applied',
     ]
     ASSUMPTIONS = ['port indices are within the node shape (Node._publish asserts the output index; input indices are '
-                   'not validated by forml at construction time)',
+                   'not validated by forml at construction time) - out-of-shape indices are exercised by the oracle-only '
+                   'stream through Segment.extend only',
                    'futures are square (szin == szout), as created by forml itself']
+
+    def __init__(self, tier, seed):
+        super().__init__(tier, seed)
+        KNOWN_SIGS.clear()
+        KNOWN_SIGS.update(e['signature'] for e in fw._load_findings(self.ID)  # pylint: disable=protected-access
+                          if e.get('status') == 'finding')
 
     # ---- plumbing ---------------------------------------------------------------------------
     def _pool_map(self, kind, items, chunk=200):
@@ -597,11 +628,11 @@ class C11(fw.Check):
         self._compare(self._pool_map('seed', items), 'seq', 'random')
 
     def _oracle_only(self):
-        """Segment.copy (not modelled) and registration cycles among futures: oracle only."""
+        """Segment.copy / Segment.extend (not modelled) and registration cycles among futures: oracle only."""
         nseq = self.n(300, 3000)
         items = [(self.rng.getrandbits(48), self.rng.choice([8, 12, 16]), True, True) for _ in range(nseq)]
         for ops, _, verdicts in self._pool_map('seed', items):
-            self._account(ops, verdicts, 'oracle-only(copy/reg-cycles)')
+            self._account(ops, verdicts, 'oracle-only(copy/extend/reg-cycles)')
 
     def _exhaustive(self):
         universe = [['mkworker', True, 1, 1], ['mkworker', False, 1, 1], ['mkfuture', 1, 1], ['fork', 0]]
